@@ -46,7 +46,7 @@ def mandatory_bins(tier):
     b = ["len_mod16_%d" % i for i in range(16)] + ["trailing_zeros_%d" % z for z in range(18)]
     b += ["all_zero_content", "via_set_config", "via_direct_construction", "framing_bf3", "framing_bec2", "needle_scan", "needle_session_key", "needle_security_code",
           "needle_customer_key", "needle_plaintext_block", "key_ends_00", "default_key", "cipher_unregistered", "cipher_fails_at_call", "cipher_fails_at_first_call",
-          "cipher_fails_at_last_call", "fault_stream", "fault_path", "read_back_with_key", "long_content", "content_longer_than_1024", "rewrite_after_content_change", "rewrite_after_in_place_content_change", "set_config_over_preexisting_plain_configuration", "target_is_a_file_name", "read_back_without_mac_check", "rewrite_of_a_read_back_object", "rewrite_under_another_key", "marked_for_encryption_after_construction", "unusable_key_given_explicitly", "several_encrypted_components", "encrypted_component_not_last"]
+          "cipher_fails_at_last_call", "fault_stream", "fault_path", "read_back_with_key", "long_content", "content_longer_than_1024", "rewrite_after_content_change", "rewrite_after_in_place_content_change", "set_config_over_preexisting_plain_configuration", "target_is_a_file_name", "read_back_without_mac_check", "rewrite_of_a_read_back_object", "rewrite_under_another_key", "marked_for_encryption_after_construction", "unusable_key_given_explicitly", "several_encrypted_components", "encrypted_component_not_last", "flag_set_with_other_enc_tag"]
     return b
 
 
@@ -378,6 +378,36 @@ def check_multi(ns, ctx, rng, key, framing, specs):
             return
 
 
+def check_flag_wins(ns, ctx, rng, key):
+    """a component whose encryption FLAG is set although its description says otherwise (ENC=PLAIN, ENC=FWKEY, no ENC tag - e.g.
+    tags taken over from a plain component): the flag is what the writer goes by, so the stored payload is ciphertext and the
+    content does not appear in clear.  (What a reader makes of such a file is not judged: it follows the tag.)"""
+    BF = ns.bf3file
+    content = rng.randbytes(rng.choice((16, 24, 48, 80)))
+    for desc in ({0xC3: b"\x03", 0xC2: b"\x00"}, {0xC3: b"\x03", 0xC2: b"\x01"}, {0xC3: b"\x02"}, {}):
+        rp = {"kind": "flag", "desc": {str(k): v.hex() for k, v in desc.items()}, "key": key.hex(), "content": content.hex()}
+        ctx.ev()
+        ctx.bin("flag_set_with_other_enc_tag")
+        ctx.distinct("flag", sorted(desc.items()), key, content)
+        f = BF.Bf3File({}, [BF.Bf3Component(dict(desc), content, None, encrypt_by_session_key=True)])
+        buf = io.StringIO()
+        try:
+            f.write_file(buf, key)
+            binary = f.to_binary(0, key)
+        except Exception as e:
+            ctx.exc(e)
+            continue  # refusing the inconsistent component is fine
+        ctx.mon("write_file")
+        scan(ctx, "flagged_component_with_other_enc_tag", needles_of(None, None, None, content), binary, buf.getvalue(), rp)
+        try:
+            ents = L.parse_body(binary, 0, key)
+            ctx.mon("stored_payload_vs_openssl")
+            if ents[0].payload != ossl.aes_cbc(key, ossl.ZERO_IV, ossl.pad0(content), True):
+                ctx.violation("stored_payload_is_not_cbc_ciphertext_of_padded_content:flag_set_with_other_enc_tag", {"desc": rp["desc"], "stored_as_plaintext": ents[0].payload[: len(content)] == content}, rp)
+        except L.LayoutError as e:
+            ctx.violation("written_file_not_parsable_by_model:" + e.rule, {"desc": rp["desc"]}, rp)
+
+
 class Fault(Exception):
     pass
 
@@ -537,7 +567,7 @@ def run_shard(spec, ctx):
         idx = spec["i"] + NSH * j
         ln = idx % 80 + 1
         if idx % 23 == 5:
-            ln = LONG[(idx // 23) % len(LONG)] if ctx.tier != "quick" or (idx // 23) % len(LONG) < 9 else 1025
+            ln = LONG[(idx // 23) % len(LONG)] if ctx.tier != "quick" or (idx // 23) % len(LONG) < 9 else (8192 + 16 if (idx // 23) % len(LONG) == 11 else 1025)
             ctx.bin("long_content")
             if ln > 1024:
                 ctx.bin("content_longer_than_1024")
@@ -572,13 +602,17 @@ def run_shard(spec, ctx):
         check_case(ns, ctx, content, declared, key, framing, via, specs, conf, rp)
         if idx % 4 == 1:
             check_multi(ns, ctx, rng, key, framing, specs)
+        if idx % 16 == 3:
+            check_flag_wins(ns, ctx, rng, key)
         if j == 0:
             ctx.sample({k: rp[k] for k in ("content", "declared", "key", "framing", "via")})
 
 
 def replay(rec, ctx):
     ns = load()
-    if rec["kind"] == "multi":
+    if rec["kind"] == "flag":
+        check_flag_wins(ns, ctx, ctx.rng, bytes.fromhex(rec["key"]))
+    elif rec["kind"] == "multi":
         check_multi(ns, ctx, ctx.rng, bytes.fromhex(rec["key"]), rec["framing"], GB.spec_from_json(rec["specs"]) if rec.get("specs") else None)
     elif rec["kind"] == "enc":
         conf = {(k, v): bytes.fromhex(c) for k, v, c in rec["conf"]} if rec.get("conf") else None
